@@ -24,6 +24,8 @@ class Scripted:
 
     def _draw(self, a, b):
         self.ranges.append((a, b))
+        if b < a:
+            raise ValueError('empty range for randrange() (%d, %d)' % (a, b + 1))
         u = self.script.pop(0) if self.script else 0
         return a + (u % (b - a + 1))
 
@@ -52,6 +54,8 @@ def run_impl(k, n, script):
     try:
         for i in range(n):
             rs.accumulate(('pos', i))
+    except Exception as e:  # noqa
+        return ['!%s' % type(e).__name__], -1, src.ranges
     finally:
         A.random = old
     return [v[1] for v in rs.value], rs.n, src.ranges
@@ -84,7 +88,9 @@ def check(ctx):
         if [tuple(r) for r in ranges] != mranges:
             ctx.disagree('reservoir-requested-ranges', case, ranges, mranges)
         # oracle: structure
-        if cnt != n or len(res) != min(n, k) or len(set(res)) != len(res) or any(not (0 <= p < n) for p in res):
+        if cnt == -1:
+            ctx.fail('reservoir-raises', 'accumulating raised %s (requested ranges %s)' % (res, ranges[-2:]), case)
+        elif cnt != n or len(res) != min(n, k) or len(set(res)) != len(res) or any(not (0 <= p < n) for p in res):
             ctx.fail('reservoir-structure', 'n=%s reservoir=%s for k=%d after %d observations' % (cnt, res, k, n), case)
         elif n <= k and res != list(range(n)):
             ctx.fail('reservoir-not-verbatim', 'while n <= k the reservoir must be the input verbatim: %s' % res, case)
@@ -97,7 +103,10 @@ def check(ctx):
             total = Fraction(0)
             count = 0
             # discover the range sizes with an all-zero script, then enumerate the product space
-            _, _, ranges0 = run_impl(k, n, [])
+            r0, c0, ranges0 = run_impl(k, n, [])
+            if c0 == -1:
+                ctx.fail('reservoir-raises', 'k=%d n=%d: accumulating raised %s' % (k, n, r0), dict(exhaustive=True, k=k, n=n))
+                continue
             sizes = [(b - a + 1) for (a, b) in ranges0]
             for script in itertools.product(*[range(s) for s in sizes]):
                 res, cnt, ranges = run_impl(k, n, script)
